@@ -1,4 +1,4 @@
 SPECIFICATION Spec
-CONSTANT MaxN = 63
+CONSTANT MaxN = 64
 INVARIANTS InSync TypeOK
 CHECK_DEADLOCK FALSE
